@@ -458,7 +458,7 @@ class PrvKeyNode(PubKeyNode):
             #    InvalidKeyError("private key is zero")
         except NameError:
             if big_endian_to_int(IL) >= CURVE_ORDER:
-                InvalidKeyError(
+                raise InvalidKeyError(
                     "private key {} is greater/equal to curve order".format(
                         big_endian_to_int(IL)
                     )
@@ -466,7 +466,7 @@ class PrvKeyNode(PubKeyNode):
             ki = (int.from_bytes(IL, "big") +
                   big_endian_to_int(bytes(self.private_key))) % CURVE_ORDER
             if ki == 0:
-                InvalidKeyError("private key is zero")
+                raise InvalidKeyError("private key is zero")
             ki = int_to_big_endian(ki, 32)
 
         child = self.__class__(
